@@ -217,8 +217,20 @@ def check(ctx):
     # ------------------------------------------------------------ associate
     snd = None
     base = Interp(prog).run(fa)
+    cond_atoms = []
+    for e in base.events:
+        for k in ("value", "result"):
+            v = e.data.get(k)
+            if isinstance(v, T):
+                cond_atoms.extend(a_ for x in v.walk() if x.op == "ite"
+                                  for a_ in tm.atoms(x.args[0]))
+        for v in e.data.get("args") or ():
+            cond_atoms.extend(a_ for x in v.walk() if x.op == "ite"
+                              for a_ in tm.atoms(x.args[0]))
+    cond_atoms.extend(a_ for x in base.ret.walk() if x.op == "ite"
+                      for a_ in tm.atoms(x.args[0]))
     for a in tm.atoms(base.events[-1].live) + [
-            x for e in base.events for x in tm.atoms(e.live)]:
+            x for e in base.events for x in tm.atoms(e.live)] + cond_atoms:
         if a.op == "cmp" and a.args[0] in ("Gt", "Lt", "GtE", "LtE") and \
                 tm.mentions_param(a, "traj_1") and \
                 tm.mentions_param(a, "traj_2") and \
@@ -349,7 +361,8 @@ def _reduce_together(ctx):
     from ..core import import_rules
     n = import_rules(ctx, "c08", ("C08.1", "C08.3"), "C05.10",
                      pred=lambda o: "reduce_to_ids" in o.key or
-                     "subclass" in o.key)
+                     "subclass" in o.key or o.key.endswith(":selection")
+                     or o.key.endswith(":unconditional"))
     ctx.require(n >= 10, "C05.10: reduce_to_ids instances not found")
 
 
